@@ -37,7 +37,8 @@ Reasons(e) ==
     ELSE (IF e.crashed THEN {<<"crash", "">>} ELSE {})
          \cup (IF ~e.crashed /\ Len(e.named) = 0 THEN {<<"unnamed", "">>} ELSE {})
 
-TraceInit == m = <<>> /\ last = 0 /\ l = 1
+Cells == UNION {{<<f, c>> : c \in Classes(f)} : f \in FieldNames}
+TraceInit == m = <<>> /\ last = 0 /\ l = 1 /\ PrintT(<<"CELLS", Cardinality(Cells)>>)
 TraceNext ==
     /\ l <= Len(Trace) /\ l' = l + 1 /\ UNCHANGED vars
     /\ LET e == Trace[l] IN
